@@ -459,6 +459,9 @@ def zone_cases(draw):
         tname = draw(st.one_of(st.sampled_from(["A", "AAAA", "TXT", "MX", "NS", "NS", "DS", "A", "TXT"]), st.sampled_from(["RRSIG", "RRSIG", "ZONEMD"]), st.sampled_from([t for t in R.ZONE_TYPES if t not in ("SOA", "NSEC", "SIG", "CNAME", "DNAME", "NSEC3")])))
         rec = draw(R.record(ctx=ctx, name=tname))
         wire = rec["wire"]
+        if tname == "RRSIG" and draw(st.integers(0, 3)) == 0:
+            # signatures over ZONEMD: excluded from the digest at the apex only (RFC 8976 3.3.1)
+            wire = "003f" + wire[4:]
         if tname == "RRSIG" and wire[:4] == "0005":
             # an RRSIG covering CNAME is CNAME-kind data: adding it to a node evicts the node's other
             # data by design (dns.node), which is not what this part is about (CNAME is left out too)
